@@ -807,7 +807,7 @@ func AdminRuleIterationSiblings(p *core.Program, r *core.Report, rule string) {
 			}
 			hasAction := false
 			for _, a := range args {
-				if core.ExprStr(a) == "string("+rn+".Action)" {
+				if core.ExprStr(ResolveLocal(info, fd.Decl.Body, a)) == "string("+rn+".Action)" {
 					hasAction = true
 				}
 			}
